@@ -1,5 +1,7 @@
 // src/algorithms/lcs.rs
 verus! {
+pub mod lcs {
+use super::*;
 
 //@@ item src/algorithms/lcs.rs :: ^fn make_table\b rw=R0,R8
 /*@*/ /// every stored value is bounded by the remaining lengths (so `+ 1` cannot overflow)
@@ -254,4 +256,5 @@ where
 }
 //@@ end
 
+} // mod lcs
 } // verus!
